@@ -71,6 +71,9 @@ pub struct Scenario2 {
     pub order: Order2,
     /// bounds of pre-emptible slices run before the final `compute()`
     pub slices: Vec<u64>,
+    /// false: forward wrapper (tier 2); true: backward wrapper on the reversed CFG (tier 3)
+    #[serde(default)]
+    pub backward: bool,
 }
 
 fn tid(s: String) -> Tid {
@@ -173,7 +176,7 @@ pub fn build_program(sc: &Scenario2) -> Term<Program> {
 }
 
 /// Monotone site function derived from the table seed and the site's name.
-fn site_fn(table_seed: u64, site: &str, bits: u8) -> EdgeFn {
+pub(crate) fn site_fn(table_seed: u64, site: &str, bits: u8) -> EdgeFn {
     let mut r = Rng::new(mix(table_seed ^ fnv64(site.as_bytes())));
     let mask = ((1u16 << bits) - 1) as u8;
     let sparse = |r: &mut Rng| (r.next() & r.next()) as u8 & mask;
@@ -257,12 +260,12 @@ impl<'a> Context<'a> for MockContext<'a> {
 }
 
 #[derive(Clone, Copy, PartialEq, Eq, Debug)]
-enum RefVal {
+pub(crate) enum RefVal {
     V(u8),
     Comb(Option<u8>, Option<u8>),
 }
 
-fn join(a: RefVal, b: RefVal) -> RefVal {
+pub(crate) fn join(a: RefVal, b: RefVal) -> RefVal {
     let jo = |x: Option<u8>, y: Option<u8>| match (x, y) {
         (Some(p), Some(q)) => Some(p | q),
         (p, None) => p,
@@ -335,7 +338,7 @@ pub struct Stats2 {
     pub shared_block: bool,
 }
 
-fn to_ref(v: &NodeValue<u8>) -> RefVal {
+pub(crate) fn to_ref(v: &NodeValue<u8>) -> RefVal {
     match v {
         NodeValue::Value(x) => RefVal::V(*x),
         NodeValue::CallFlowCombinator { call_stub, interprocedural_flow } => RefVal::Comb(*call_stub, *interprocedural_flow),
@@ -343,6 +346,9 @@ fn to_ref(v: &NodeValue<u8>) -> RefVal {
 }
 
 pub fn run_scenario2(sc: &Scenario2) -> Result<Stats2, Violation> {
+    if sc.backward {
+        return crate::tier3::run_backward(sc);
+    }
     let program = build_program(sc);
     let graph = get_program_cfg(&program);
     let n = graph.node_count();
@@ -530,6 +536,7 @@ pub fn gen_scenario2(seed: u64) -> Scenario2 {
         start,
         order,
         slices,
+        backward: false,
     }
 }
 
@@ -628,14 +635,14 @@ pub fn campaign(seed: u64, runs: u64, threads: u64) -> Campaign2 {
         nontrivial: HashSet<u64>,
         callbacks: u64,
         violations: Vec<(u64, Scenario2, Violation)>,
-        reach: [u64; 6],
+        reach: [u64; 7],
         samples: Vec<(u64, Scenario2, Stats2)>,
     }
     let outs: Vec<Out> = std::thread::scope(|s| {
         let hs: Vec<_> = (0..threads)
             .map(|t| {
                 s.spawn(move || {
-                    let mut o = Out { evals: 0, distinct: HashSet::new(), nontrivial: HashSet::new(), callbacks: 0, violations: vec![], reach: [0; 6], samples: vec![] };
+                    let mut o = Out { evals: 0, distinct: HashSet::new(), nontrivial: HashSet::new(), callbacks: 0, violations: vec![], reach: [0; 7], samples: vec![] };
                     let mut i = t;
                     while i < runs {
                         // one program + table, several orders: the order is the schedule dimension
@@ -649,6 +656,7 @@ pub fn campaign(seed: u64, runs: u64, threads: u64) -> Campaign2 {
                             _ => Order2::Random(r.next()),
                         };
                         sc.slices = (0..r.below(3)).map(|_| r.range(1, 3)).collect();
+                        sc.backward = (i / 4) % 2 == 1;
                         let h = crate::hash_of(&sc);
                         o.evals += 1;
                         o.distinct.insert(h);
@@ -659,6 +667,7 @@ pub fn campaign(seed: u64, runs: u64, threads: u64) -> Campaign2 {
                                 if st.call_return_nodes_with_both > 0 { o.reach[1] += 1; }
                                 if st.bound_hit { o.reach[2] += 1; }
                                 match sc.order { Order2::BottomUp => o.reach[3] += 1, Order2::TopDown => o.reach[4] += 1, _ => o.reach[5] += 1 }
+                                if sc.backward { o.reach[6] += 1; }
                                 if o.samples.len() < 2 && st.call_return_nodes_with_both > 0 && st.ref_rounds >= 3 {
                                     o.samples.push((i, sc.clone(), st));
                                 }
@@ -678,7 +687,7 @@ pub fn campaign(seed: u64, runs: u64, threads: u64) -> Campaign2 {
     let mut c = Campaign2 { evaluations: 0, distinct: 0, nontrivial: 0, callbacks: 0, violations: vec![], reach: BTreeMap::new(), samples: vec![] };
     let mut distinct = HashSet::new();
     let mut nontrivial = HashSet::new();
-    let mut reach = [0u64; 6];
+    let mut reach = [0u64; 7];
     let mut samples = Vec::new();
     for o in outs {
         c.evaluations += o.evals;
@@ -686,7 +695,7 @@ pub fn campaign(seed: u64, runs: u64, threads: u64) -> Campaign2 {
         nontrivial.extend(o.nontrivial);
         c.callbacks += o.callbacks;
         c.violations.extend(o.violations);
-        for k in 0..6 { reach[k] += o.reach[k]; }
+        for k in 0..7 { reach[k] += o.reach[k]; }
         samples.extend(o.samples);
     }
     c.distinct = distinct.len() as u64;
@@ -698,7 +707,7 @@ pub fn campaign(seed: u64, runs: u64, threads: u64) -> Campaign2 {
         .into_iter()
         .map(|(i, sc, st)| serde_json::json!({"tier": 2, "run_index": i, "scenario": sc, "cfg_nodes": st.nodes, "reference_rounds": st.ref_rounds, "call_return_nodes_with_both_inputs": st.call_return_nodes_with_both, "verdict": "holds"}))
         .collect();
-    for (k, name) in ["reference_needed_3_or_more_rounds", "call_return_combined_both_inputs", "bound_hit", "bottom_up_order", "top_down_order", "other_orders"].iter().enumerate() {
+    for (k, name) in ["reference_needed_3_or_more_rounds", "call_return_combined_both_inputs", "bound_hit", "bottom_up_order", "top_down_order", "other_orders", "backward_wrapper_runs"].iter().enumerate() {
         c.reach.insert(name.to_string(), reach[k]);
     }
     c
